@@ -171,7 +171,7 @@ func HarnessPack() {
 	}
 	src := envSnapshot(packSrc)
 	err2 := Unpack(envTarReader(written, false), "/w/out")
-	if allRelative {
+	if allRelative && len(p.allowSymlinkTargets) == 0 { // an allow-listed link needs the same allow-list on the unpacking side
 		verif.Reach("fed-back")
 		verif.Assert("C05-unpack-accepts-what-pack-produced", err2 == nil)
 		verif.Assert("C02-packed-tree-unpacks", err2 == nil)
